@@ -51,6 +51,58 @@ fn dotted(name: &str) -> S {
     e
 }
 
+/// canonical spelling of a numeric token by value: integral values as integer text
+pub fn canon_num(t: &str) -> String {
+    if t.contains('.') || t.contains('e') || t.contains('E') {
+        if let Ok(v) = t.parse::<f64>() {
+            if v.is_finite() && v.fract() == 0.0 && v.abs() < 9007199254740992.0 {
+                return format!("{}", v as i64);
+            }
+            return format!("{:?}", v);
+        }
+    }
+    t.to_string()
+}
+
+fn is_num_lit(e: &Expr) -> bool {
+    matches!(e, Expr::Int { .. } | Expr::Float { .. })
+}
+
+fn bin_sym(op: GoBinaryOp) -> &'static str {
+    match op {
+        GoBinaryOp::Add => "+",
+        GoBinaryOp::Sub => "-",
+        GoBinaryOp::Mul => "*",
+        GoBinaryOp::Div => "/",
+        GoBinaryOp::Less => "<",
+        GoBinaryOp::Greater => ">",
+        GoBinaryOp::LessEq => "<=",
+        GoBinaryOp::GreaterEq => ">=",
+        GoBinaryOp::Eq => "==",
+        GoBinaryOp::NotEq => "!=",
+        GoBinaryOp::And => "&&",
+        GoBinaryOp::Or => "||",
+    }
+}
+
+/// operand of a constant expression: integer constant or floating-point constant, by value
+fn const_operand(e: &Expr) -> S {
+    match e {
+        Expr::Int { value, .. } => match value.strip_prefix('-') {
+            Some(rest) => tagged("un", vec![a("neg"), tagged("iconst", vec![a(rest)])]),
+            None => tagged("iconst", vec![a(value)]),
+        },
+        Expr::Float { value, .. } => {
+            if *value < 0.0 {
+                tagged("un", vec![a("neg"), tagged("fconst", vec![a(format!("{:?}", -value))])])
+            } else {
+                tagged("fconst", vec![a(format!("{:?}", value))])
+            }
+        }
+        other => eexpr(other),
+    }
+}
+
 pub fn eexpr(e: &Expr) -> S {
     match e {
         Expr::Nil { .. } => tagged("var", vec![a("nil")]),
@@ -63,10 +115,11 @@ pub fn eexpr(e: &Expr) -> S {
             None => tagged("num", vec![a(value)]),
         },
         Expr::Float { value, .. } => {
-            let t = format!("{}", value);
-            match t.strip_prefix('-') {
-                Some(rest) => tagged("un", vec![a("neg"), tagged("num", vec![a(rest)])]),
-                None => tagged("num", vec![a(t)]),
+            // outside constant expressions `3` and `3.0` denote the same value of the declared type
+            if *value < 0.0 {
+                tagged("un", vec![a("neg"), tagged("num", vec![a(canon_num(&format!("{:?}", -value)))])])
+            } else {
+                tagged("num", vec![a(canon_num(&format!("{:?}", value)))])
             }
         }
         Expr::String { value, .. } => tagged("str", vec![S::A(value.clone())]),
@@ -87,6 +140,11 @@ pub fn eexpr(e: &Expr) -> S {
                 eexpr(expr),
             ],
         ),
+        Expr::BinaryOp { op, lhs, rhs, .. } if is_num_lit(lhs) && is_num_lit(rhs) => {
+            // a Go CONSTANT expression: untyped integer constants divide as integers, so here the
+            // kind the printed text denotes (integer vs floating-point literal) is part of the meaning
+            tagged("bin", vec![a(bin_sym(*op)), const_operand(lhs), const_operand(rhs)])
+        }
         Expr::BinaryOp { op, lhs, rhs, .. } => tagged(
             "bin",
             vec![
@@ -442,7 +500,11 @@ impl P {
             }
             self.i += 1;
             let rhs = self.expr(p + 1, nolit)?;
-            lhs = tagged("bin", vec![a(op), lhs, rhs]);
+            if is_num_node(&lhs) && is_num_node(&rhs) {
+                lhs = tagged("bin", vec![a(op), classify_const(lhs), classify_const(rhs)]);
+            } else {
+                lhs = tagged("bin", vec![a(op), lhs, rhs]);
+            }
         }
         Ok(lhs)
     }
@@ -789,10 +851,66 @@ impl P {
     }
 }
 
+fn num_text(s: &S) -> Option<&str> {
+    if let S::L(items) = s {
+        if let (Some(S::A(h)), Some(S::A(t))) = (items.first(), items.get(1)) {
+            if h == "num" && items.len() == 2 {
+                return Some(t.as_str());
+            }
+        }
+    }
+    None
+}
+
+fn is_num_node(s: &S) -> bool {
+    if num_text(s).is_some() {
+        return true;
+    }
+    if let S::L(items) = s {
+        if let (Some(S::A(h)), Some(S::A(o)), Some(inner)) = (items.first(), items.get(1), items.get(2)) {
+            return h == "un" && o == "neg" && num_text(inner).is_some();
+        }
+    }
+    false
+}
+
+/// what kind of untyped constant a numeric token denotes in Go
+fn classify_const(s: S) -> S {
+    if let Some(t) = num_text(&s) {
+        if t.contains('.') || t.contains('e') || t.contains('E') {
+            let v: f64 = t.parse().unwrap_or(f64::NAN);
+            return tagged("fconst", vec![a(format!("{:?}", v))]);
+        }
+        return tagged("iconst", vec![a(t)]);
+    }
+    if let S::L(items) = &s {
+        if items.len() == 3 {
+            return tagged("un", vec![a("neg"), classify_const(items[2].clone())]);
+        }
+    }
+    s
+}
+
+fn canon_tree(s: S) -> S {
+    match s {
+        S::L(items) => {
+            if items.len() == 2 {
+                if let (S::A(h), S::A(t)) = (&items[0], &items[1]) {
+                    if h == "num" {
+                        return tagged("num", vec![a(canon_num(t))]);
+                    }
+                }
+            }
+            S::L(items.into_iter().map(canon_tree).collect())
+        }
+        other => other,
+    }
+}
+
 pub fn parse_go(text: &str) -> Result<S, String> {
     let toks = tokenize(text)?;
     let mut p = P { t: toks, i: 0 };
-    p.file()
+    p.file().map(canon_tree)
 }
 
 /// first differing path between two S-expressions (for reports)
